@@ -63,7 +63,9 @@ def build(desc, assembly=None):
             t.add_tag("__head__")
         head = big.select("__head__")
         head.drop_tags("__head__")
-        out = head | Q.TensorNetwork([t.copy() for t in ts[k:]])
+        # check_collisions=False: with the default, `|` renames labels that are *inner* to the added part, which would cut a
+        # hyper label shared by both parts (documented behaviour of combining, not under test here)
+        out = head.combine(Q.TensorNetwork([t.copy() for t in ts[k:]]), virtual=True, check_collisions=False)
     else:
         perm = rng.permutation(n).tolist()
         out = Q.TensorNetwork([])
